@@ -29,30 +29,15 @@ import (
 	"golang.org/x/tools/go/ssa"
 )
 
-// external functions / methods that only read their (possibly shared) arguments
-var frameReadOnly = map[string]bool{
-	"(*math/big.Int).Exp": true, "(*math/big.Int).Cmp": true, "(*math/big.Int).Bytes": true, "(*math/big.Int).String": true,
-	"(*math/big.Int).Sign": true, "(*math/big.Int).BitLen": true,
-	"crypto/rand.Int": true, "io.ReadFull": true, "crypto/rand.Read": true,
-	"fmt.Sprintf": true, "fmt.Errorf": true, "fmt.Sprint": true, "fmt.Println": true, "fmt.Printf": true,
-	"github.com/pkg/errors.Errorf": true, "github.com/pkg/errors.Wrapf": true, "github.com/pkg/errors.New": true, "github.com/pkg/errors.Wrap": true,
-	"strconv.Itoa": true, "strconv.FormatUint": true, "strconv.FormatInt": true, "encoding/hex.EncodeToString": true, "encoding/hex.Dump": true,
-	"bytes.Equal": true, "crypto/hmac.Equal": true, "bytes.NewReader": true,
-}
-
-// the first argument (receiver) of these external calls is written; the others are read
-var frameWritesRecvOnly = map[string]bool{
-	"(*math/big.Int).SetBytes": true, "(*math/big.Int).SetString": true, "(*math/big.Int).SetUint64": true,
-}
-
 type frameAnalysis struct {
-	P        *Program
-	fns      []*ssa.Function
-	retShare map[*ssa.Function]bool         // returns a shared value
-	writesP  map[*ssa.Function]map[int]bool // writes through parameter i (incl. receiver = 0)
-	shared   map[*ssa.Function]map[ssa.Value]bool
-	viol     []string
-	undec    []string
+	P          *Program
+	fns        []*ssa.Function
+	retShare   map[*ssa.Function]bool         // returns a shared value
+	writesP    map[*ssa.Function]map[int]bool // writes through parameter i (incl. receiver = 0)
+	shared     map[*ssa.Function]map[ssa.Value]bool
+	viol       []string
+	undec      []string
+	unknownExt map[string]bool
 }
 
 func (P *Program) repoFunctions() []*ssa.Function {
@@ -226,7 +211,7 @@ func (fa *frameAnalysis) callees(cc *ssa.CallCommon) []*ssa.Function {
 		var out []*ssa.Function
 		for _, t := range fa.P.implementers(cc.Value.Type()) {
 			if sel := fa.P.prog.MethodSets.MethodSet(t).Lookup(cc.Method.Pkg(), cc.Method.Name()); sel != nil {
-				if fn := fa.P.prog.MethodValue(sel); fn != nil && fn.Blocks != nil {
+				if fn := fa.P.prog.MethodValue(sel); fn != nil && fn.Blocks != nil && !fa.isOverlayFn(fn) {
 					out = append(out, fn)
 				}
 			}
@@ -467,8 +452,40 @@ func (fa *frameAnalysis) run() {
 			}
 		}
 	}
+	// F6: input byte slices are read-only.  No function of the library writes through a
+	// []byte parameter (not even into its spare capacity), except the two padding /
+	// encryption helpers that are documented to extend the plaintext buffer they are
+	// given.  This is what makes read-only sharing of one input buffer between
+	// concurrent operations safe.
+	for _, fn := range fa.fns {
+		for pi, p := range fn.Params {
+			sl, ok := p.Type().Underlying().(*types.Slice)
+			if !ok || !types.Identical(sl.Elem(), types.Typ[types.Byte]) || !fa.writesP[fn][pi] {
+				continue
+			}
+			key := fmt.Sprintf("%s#%s", fnName(fn), p.Name())
+			if frameInputWriters[key] {
+				continue
+			}
+			fa.viol = append(fa.viol, fmt.Sprintf("input byte slice %q is written (possibly in its spare capacity) in %s (%s)", p.Name(), fnName(fn), fa.posOf(fn)))
+		}
+	}
 	sort.Strings(fa.viol)
 	sort.Strings(fa.undec)
+}
+
+// the only functions allowed to write through a []byte parameter: they pad the
+// plaintext buffer they are handed in place (its spare capacity), which is their
+// documented behaviour; their callers pass buffers they own
+var frameInputWriters = map[string]bool{
+	"security/lib.PKCS7Padding#plainText":                 true,
+	"(*security/encr.EncrAesCbcCrypto).Encrypt#plainText": true,
+	"ike.encryptPayload#plainText":                        true,
+}
+
+func (fa *frameAnalysis) posOf(fn *ssa.Function) string {
+	pos := fa.P.fset.Position(fn.Pos())
+	return fmt.Sprintf("%s:%d", strings.TrimPrefix(pos.Filename, fa.P.repoDir+"/"), pos.Line)
 }
 
 func calleeName(cc *ssa.CallCommon) string {
@@ -481,30 +498,56 @@ func calleeName(cc *ssa.CallCommon) string {
 	return cc.Value.String()
 }
 
-// externalReadOnly: the callee is outside the repository and only reads argument ai.
+// frameExternalWrites: for functions / interface methods outside the repository, the
+// argument positions (receiver = 0 for methods and interface invokes) they write
+// through.  A callee that is not listed is assumed to write every argument.
+var frameExternalWrites = map[string][]int{
+	"(encoding/binary.bigEndian).Uint16": {}, "(encoding/binary.bigEndian).Uint32": {}, "(encoding/binary.bigEndian).Uint64": {},
+	"(encoding/binary.bigEndian).PutUint16": {1}, "(encoding/binary.bigEndian).PutUint32": {1}, "(encoding/binary.bigEndian).PutUint64": {1},
+	"encoding/binary.Write": {0}, "(*bytes.Buffer).Bytes": {}, "bytes.NewReader": {}, "bufio.NewReader": {}, "(*bufio.Reader).ReadByte": {0},
+	"io.ReadFull": {1}, "crypto/rand.Read": {0}, "crypto/rand.Int": {},
+	"crypto/hmac.New": {}, "crypto/hmac.Equal": {}, "bytes.Equal": {}, "crypto/aes.NewCipher": {},
+	"crypto/cipher.NewCBCEncrypter": {}, "crypto/cipher.NewCBCDecrypter": {},
+	"crypto/cipher.BlockMode.CryptBlocks": {0, 1}, "crypto/cipher.Block.BlockSize": {},
+	"hash.Hash.Write": {0}, "hash.Hash.Sum": {1}, "hash.Hash.Reset": {0}, "hash.Hash.Size": {}, "hash.Hash.BlockSize": {},
+	"io.Reader.Read":      {1},
+	"(*math/big.Int).Exp": {0}, "(*math/big.Int).Cmp": {}, "(*math/big.Int).Bytes": {}, "(*math/big.Int).String": {}, "(*math/big.Int).Sign": {}, "(*math/big.Int).BitLen": {},
+	"(*math/big.Int).SetBytes": {0}, "(*math/big.Int).SetString": {0}, "(*math/big.Int).SetUint64": {0}, "math/big.NewInt": {},
+	"fmt.Sprintf": {}, "fmt.Errorf": {}, "fmt.Sprint": {}, "fmt.Println": {}, "fmt.Printf": {},
+	"github.com/pkg/errors.Errorf": {}, "github.com/pkg/errors.Wrapf": {}, "github.com/pkg/errors.New": {}, "github.com/pkg/errors.Wrap": {}, "errors.New": {},
+	"strconv.Itoa": {}, "strconv.FormatUint": {}, "strconv.FormatInt": {}, "encoding/hex.EncodeToString": {}, "encoding/hex.Dump": {},
+	"sort.Slice": {0}, "strings.Repeat": {}, "net.ParseIP": {}, "(net.IP).To4": {}, "(net.IP).String": {},
+	"(error).Error": {}, "error.Error": {},
+}
+
+// externalReadOnly: the callee is outside the repository and does not write argument ai.
 func (fa *frameAnalysis) externalReadOnly(cc *ssa.CallCommon, ai int) bool {
 	name := calleeName(cc)
-	if f, ok := cc.Value.(*ssa.Function); ok {
+	if cc.IsInvoke() {
+		name = strings.TrimPrefix(cc.Value.Type().String(), "*") + "." + cc.Method.Name()
+	} else if f, ok := cc.Value.(*ssa.Function); ok {
 		name = f.String()
 	}
-	if cc.IsInvoke() {
-		// interface methods of the standard library invoked on shared objects: only
-		// io.Reader.Read on the system random source is expected
-		return cc.Method.Name() == "Read" && ai == 0
+	w, known := frameExternalWrites[name]
+	if !known {
+		if fa.unknownExt == nil {
+			fa.unknownExt = map[string]bool{}
+		}
+		fa.unknownExt[name] = true
+		return false
 	}
-	if frameReadOnly[name] {
-		return true
+	for _, i := range w {
+		if i == ai {
+			return false
+		}
 	}
-	if frameWritesRecvOnly[name] {
-		return ai != 0
-	}
-	return false
+	return true
 }
 
 func init() {
 	propMeta["C18"] = propInfo{
 		level: "other",
-		explanation: "Frame analysis over go/ssa of every non-test function of the library: no write, append, copy or map update whose target is (derived from) package-level state outside the package initialisers, no such state passed to a repository function that writes through that parameter or to an external function not on the read-only list; no goroutines, channels, sync, atomic or unsafe in library code. " +
+		explanation: "Frame analysis over go/ssa of every non-test function of the library: no write, append, copy or map update whose target is (derived from) package-level state outside the package initialisers, no such state passed to a repository function that writes through that parameter or to an external function not on the read-only list; no function writes through a []byte parameter (not even its spare capacity) except the two padding helpers documented to extend the plaintext they are given - so input buffers may be shared read-only; no goroutines, channels, sync, atomic or unsafe in library code. " +
 			"With the frame conditions proved for the individual operations (decoders own their output, encoders return fresh buffers, SA operations touch only the SA passed in) this gives: operations that share no message and no SA object write disjoint memory, hence cannot race and return what they return alone. The schedule quantifier itself is not explored.",
 		assumptions: []string{
 			"Go memory model: goroutines that write no common location do not race",
@@ -545,4 +588,13 @@ func init() {
 			return out
 		},
 	}
+}
+
+// isOverlayFn: fn is defined in a contract / lemma file of /verif (not library code).
+func (fa *frameAnalysis) isOverlayFn(fn *ssa.Function) bool {
+	if !fn.Pos().IsValid() {
+		return false
+	}
+	_, ok := fa.P.overlay[fa.P.fset.Position(fn.Pos()).Filename]
+	return ok
 }
